@@ -53,6 +53,20 @@ def build(rng, tier):
         inst = f"ystress_{j}"
         ops = [f"eng new {inst} ystress par {a}"] + engcheck.load_ops(inst, sinp) + [f"eng runin {inst} {b}", f"eng dump {inst}", f"eng runin {inst} {b}", f"eng dump {inst}"]
         cases.append(engcheck.Case("ystress", inst, ops, {"inp": sinp, "union": sinp, "kind": "pools-stress", "abc": (a, b, b), "no_model": True}))
+    # (1b') re-run in a SMALLER pool after facts were pushed into ANOTHER relation: `b(x) <-- a(x), if x >= 0;  c(x, y) <-- b(x), d(y)` with thousands of rows in `a`;
+    # the first run (pool of 8 / 16) spreads the rows of the derived `b` over the per-thread shards of its no-index; `d` then grows, `a` and `b` do not, and the second run
+    # (pool of 1 / 2 / 3) must still find every row of `b` - whatever a run keeps from the previous one must not depend on the pool that one ran in
+    shrink = {"rels": [{"arity": 1}, {"arity": 1}, {"arity": 2}, {"arity": 1}],
+              "rules": [{"heads": [(1, [("var", 0)])], "body": [("cl", 0, [("v", 0)], []), ("if", ("le", 0, ("var", 0)))]},
+                        {"heads": [(2, [("var", 0), ("var", 1)])], "body": [("cl", 1, [("v", 0)], []), ("cl", 3, [("v", 1)], [])]}]}
+    progs["yshrink"] = shrink; PROGS["yshrink"] = shrink
+    mods.append(("yshrink", eng.rs_module("yshrink", shrink, macro="ascent_par")))
+    hinp = {0: [(x,) for x in range(6000)], 3: [(0,)]}
+    hunion = {0: hinp[0], 3: [(0,), (1,)]}
+    for j, (a, b) in enumerate([(8, 2), (8, 1), (16, 3), (16, 1), (4, 4), (2, 8)] if tier == "quick" else [(a, b) for a in (2, 4, 8, 16) for b in (1, 2, 3, 8)]):
+        inst = f"yshrink_{j}"
+        ops = [f"eng new {inst} yshrink par {a}"] + engcheck.load_ops(inst, hinp) + [f"eng runin {inst} {a}", f"eng dump {inst}", f"eng push {inst} r3 (1)", f"eng runin {inst} {b}", f"eng dump {inst}"]
+        cases.append(engcheck.Case("yshrink", inst, ops, {"inp": hinp, "union": hunion, "kind": "pools-shrink-after-push", "abc": (a, a, b), "no_model": True}))
     # (1c) keyed (hash-sharded) indices with many keys, merged delta -> total in pools whose size is not a power of two and differs from the
     # pool the instance (and the process-wide shard count) was created in: every shard must take part in the merge
     join = {"rels": [{"arity": 2}, {"arity": 2}, {"arity": 2}],
